@@ -214,6 +214,8 @@ PROPS = {
                      ["create:accepted", "create:inconsistent", "set:inconsistent", "set:immutable", "set:accepted-mutable",
                       "set:accepted-immutable-before-enable", "set:inconsistent-and-immutable", "enable"],
                      "entity under test on one participant, announced QoS read from the built-in readers of a second participant, both inside the deterministic simulation"),
+    "C26": simprop(scenarios.c26, ["C26"], {"scenarios": 30, "presented": 30, "withheld": 30, "finals": 30, "mixedfinal": 15}, spec="Trace_Filter", mc=None,
+                   norm=tracenorm.normalise_filter),
     "C36": graphprop("Entities", "Entities", ["MC_Entities.cfg"],
                      ["delete:not-empty", "delete:topic-in-use", "delete:already-deleted", "use:deleted-entity", "delete-contained",
                       "delete:wrong-parent", "create:parent-deleted"],
